@@ -495,6 +495,36 @@ def run(tier, only=None):
             mine.append(len(tasks))
             tasks.append(t)
         meta[(c, fn)] = (o, mine, L)
+    # helpers that only wrap a two-scalar routine (secp256k1): when that routine is not posed in full in this run,
+    # pose its entry and exit segments (top and bottom column, "entered with V = 0", "returns V")
+    if want_helper and "glue" in hparts:
+        hsel = [c for c in only if c in HP.HELPERS]
+        for c, fn in HP.DIRECT.items():
+            if (c, fn) in routines or (hsel and c not in hsel) or (c, fn) in STRAIGHT:
+                continue
+            o = Obligation("%s.%s:entry-exit" % (c, fn), "P", [],
+                           "all valid wNAF digit arrays in the top and the bottom column, all accumulator states",
+                           "used by %s.verify_helper_vartime: the loop is entered with V = 0, the top and the bottom "
+                           "column satisfy V' = 2V + D_i, and the value returned is V (in particular the neutral when "
+                           "no non-zero digit was seen); the other columns are posed by `--only %s` / the thorough tier"
+                           % (c, c))
+            o.hint = dict(curve=c, func=fn)
+            o.candidate = False
+            obs.append(o)
+            try:
+                L, sc_it = scout(c, fn)
+                if not L:
+                    raise NotAbstractable("no reversed main loop found")
+            except (NotAbstractable, MirError, Unsupported) as e:
+                o.unknown("not abstractable: %s" % str(e)[:300])
+                o.not_abstractable = True
+                continue
+            o.partial_cols = [0, L - 1, -1]
+            mine = []
+            for lo in (0, L - 1):
+                mine.append(len(tasks))
+                tasks.append((c, fn, lo, lo, L))
+            meta[(c, fn)] = (o, mine, L)
     # the wNAF recoders themselves (branch-free integer code)
     from engines.polyid.recoders import NAFS, native_recoder_check, scalar_order
     rec_meta = []
@@ -594,12 +624,12 @@ def run(tier, only=None):
                 init = val["init"]
         o.functions = sorted(fns)
         solver = "%s (unsat on %d queries: %d path lemmas over %d columns + side conditions)" % (
-            Z3_VERSION, q, paths, L)
+            Z3_VERSION, q, paths, len(getattr(o, "partial_cols", [0] * (L + 1))) - 1)
         if na:
             o.unknown("not abstractable: " + na, solver, secs, q)
             o.not_abstractable = True
             continue
-        missing = [i for i in list(range(L)) + [-1] if i not in cols]
+        missing = [i for i in getattr(o, "partial_cols", list(range(L)) + [-1]) if i not in cols]
         if not fails and not unk:
             if missing:
                 merr = merr or "%s.%s: no path lemma for columns %r" % (c, fn, missing[:8])
